@@ -36,7 +36,8 @@ theorem response_needs_pending (s : St) (sock : Sock) (src : Addr) (tx : Bytes) 
       step (step s sock src (.response tx e)).1 sock src (.response tx e) =
         ((step s sock src (.response tx e)).1, {})) ∧
     Inert s (step s sock src (.response tx e)).1 ∧
-    (step s sock src (.response tx e)).1.role = s.role ∧ (step s sock src (.response tx e)).1.locals = s.locals := by
+    (step s sock src (.response tx e)).1.role = s.role ∧ (step s sock src (.response tx e)).1.locals = s.locals ∧
+    (step s sock src (.response tx e)).1.selSock = s.selSock := by
   by_cases h : tx ∈ s.pending
   · simp [step, handleResponse, h, Inert, List.mem_filter]
     intro t ht; simp [ht]
@@ -49,23 +50,6 @@ def run (s : St) (evs : List Ev) : St × List Bytes :=
   evs.foldl (fun (acc : St × List Bytes) ev =>
     let (s', o) := step acc.1 ev.1 ev.2.1 ev.2.2
     (s', match o.delivered with | some tx => acc.2 ++ [tx] | none => acc.2)) (s, [])
-
-theorem step_pending_subset (s : St) (sock : Sock) (src : Addr) (i : Inp) :
-    (∀ t, t ∈ (step s sock src i).1.pending → t ∈ s.pending) ∧
-    (∀ tx, (step s sock src i).2.delivered = some tx → tx ∈ s.pending ∧ tx ∉ (step s sock src i).1.pending) ∧
-    (s.pending.Nodup → (step s sock src i).1.pending.Nodup) := by
-  cases i with
-  | response tx e =>
-    by_cases h : tx ∈ s.pending
-    · simp only [step, handleResponse, h, ↓reduceIte]
-      refine ⟨fun t ht => (List.mem_filter.mp ht).1, ?_, fun hn => hn.filter _⟩
-      intro tx' htx'
-      simp only [Option.some.injEq] at htx'
-      subst htx'
-      exact ⟨h, by simp [List.mem_filter]⟩
-    · simp [step, handleResponse, h]
-  | request r => simp [step]
-  | empty | data | undecodable | indication => simp [step]
 
 /-- **response_needs_pending** (all histories): over any sequence of datagrams of any kind — requests
 authenticated or not, responses genuine, forged or replayed, garbage — every delivered response
@@ -131,6 +115,22 @@ example : let s : St := { role := .controlled, state := .checking, remotes := []
   decide
 
 
+/-- the other consumer of STUN responses in the anchored code, `probe_stun` (server-reflexive gathering):
+it takes a mapped address only from a Binding *success* response carrying the probe's own transaction id
+(holds since the `fix:` commit; before, any decodable datagram from the server's IP with an
+XOR-MAPPED-ADDRESS was taken). -/
+theorem probe_needs_own_transaction (tx resp : Bytes) (a : Addr) (same : Bool) (h : probeAccept tx resp same = some a) :
+    ∃ d, decode resp = .ok d ∧ d.tx = tx ∧ d.cls = .success ∧ d.method = .binding ∧ d.mapped = some a := by
+  unfold probeAccept at h
+  split at h
+  · simp at h
+  split at h
+  · rename_i d hd
+    split at h
+    · rename_i hc; exact ⟨d, hd, hc.1, hc.2.1, hc.2.2, h⟩
+    · simp at h
+  · simp at h
+
 /-! ### requests -/
 
 /-- **unauth_request_inert** (abstract step): in WebRTC mode a request the credential check does not
@@ -140,7 +140,132 @@ theorem unauth_request_inert_step (s : St) (sock : Sock) (src : Addr) (r : Req) 
     (hr : r.accepted = false) : step s sock src (.request r) = (s, { replied := sock.canSend }) := by
   simp [step, handleRequest_unauth s sock src r hw hr]
 
-/-- the credential check is sound: it accepts only datagrams that really carry the credentials -/
+/-- STUN "noise" — unaccepted requests (WebRTC mode), undecodable datagrams, indications, empty datagrams,
+responses whose transaction is not outstanding — leaves the WHOLE state unchanged, including the liveness
+timestamp `last_received` and the published socket. -/
+def Noise (s : St) : Inp → Prop
+  | .request r => s.webrtc = true ∧ r.accepted = false
+  | .response tx _ => tx ∉ s.pending
+  | .undecodable | .indication | .empty => True
+  | .data => False
+
+theorem stun_noise_is_identity (s : St) (sock : Sock) (src : Addr) (i : Inp) (h : Noise s i) :
+    (step s sock src i).1 = s := by
+  cases i with
+  | request r => rw [unauth_request_inert_step s sock src r h.1 h.2]
+  | response tx e =>
+    have hn : tx ∉ s.pending := h
+    simp [step, handleResponse, hn]
+  | data => exact absurd h (by simp [Noise])
+  | undecodable | indication | empty => rfl
+
+/-! ### histories with keepalive ticks -/
+
+/-- everything that happens to the transport: datagrams, keepalive ticks (with the transaction id the
+tick draws), the clock advancing -/
+inductive HEv where
+  | pkt (sock : Sock) (src : Addr) (i : Inp)
+  | tick (tx : Bytes)
+  | advance (t : Nat)
+
+def hstep (s : St) : HEv → St
+  | .pkt sock src i => (step s sock src i).1
+  | .tick tx => (tick s tx).1
+  | .advance t => { s with now := s.now + t }
+
+def hrun (s : St) (evs : List HEv) : St := evs.foldl hstep s
+
+/-- a datagram event that is an unaccepted request -/
+def HEv.unauthRequest : HEv → Bool
+  | .pkt _ _ (.request r) => !r.accepted
+  | _ => false
+
+theorem hstep_webrtc (s : St) (e : HEv) : (hstep s e).webrtc = s.webrtc := by
+  cases e with
+  | pkt sock src i =>
+    cases i with
+    | request r => simp [hstep, step]
+    | response tx er => simp only [hstep, step, handleResponse]; split <;> rfl
+    | data | undecodable | indication | empty => rfl
+  | tick tx => rfl
+  | advance t => rfl
+
+/-- **unauth_history_inert** (the property over histories, ticks included): in WebRTC mode, ERASING every
+unaccepted request from an arbitrary history of datagrams, keepalive ticks and clock advances does not
+change the resulting state at all — not the remote candidates, the selected pair, the nomination flag, the
+transport state (so no Disconnected → Connected through the liveness timer either), the published socket or
+the outstanding transactions. -/
+theorem unauth_history_inert (s : St) (evs : List HEv) (hw : s.webrtc = true) :
+    hrun s evs = hrun s (evs.filter (fun e => !e.unauthRequest)) := by
+  induction evs generalizing s with
+  | nil => rfl
+  | cons e es ih =>
+    by_cases hu : e.unauthRequest = true
+    · have he : hstep s e = s := by
+        cases e with
+        | pkt sock src i =>
+          cases i with
+          | request r =>
+            have hr : r.accepted = false := by simpa [HEv.unauthRequest] using hu
+            simp [hstep, unauth_request_inert_step s sock src r hw hr]
+          | response _ _ | data | undecodable | indication | empty => simp [HEv.unauthRequest] at hu
+        | tick _ => simp [HEv.unauthRequest] at hu
+        | advance _ => simp [HEv.unauthRequest] at hu
+      simp only [hrun, List.foldl_cons, he, List.filter_cons, hu, Bool.not_true, Bool.false_eq_true, ↓reduceIte]
+      exact ih s hw
+    · simp only [hrun, List.foldl_cons, List.filter_cons, hu, Bool.not_false, ↓reduceIte]
+      exact ih (hstep s e) (by rw [hstep_webrtc]; exact hw)
+
+/-- what a keepalive tick can do: it looks only at state / mode / `now − last_received` / thresholds; it can
+move only a Connected or Disconnected WebRTC transport, and only to Connected, Disconnected or Failed; it
+never touches candidates, pair, nomination or socket; it registers at most its own transaction id. -/
+theorem tick_effects (s : St) (tx : Bytes) :
+    (tick s tx).1.remotes = s.remotes ∧ (tick s tx).1.selected = s.selected ∧ (tick s tx).1.nominated = s.nominated ∧
+    (tick s tx).1.selSock = s.selSock ∧ (tick s tx).1.lastRx = s.lastRx ∧
+    ((tick s tx).1.pending = s.pending ∨ (tick s tx).1.pending = s.pending ++ [tx]) ∧
+    ((tick s tx).1.state ≠ s.state → s.webrtc = true ∧ (s.state = .connected ∨ s.state = .disconnected) ∧
+      ((tick s tx).1.state = .connected ∨ (tick s tx).1.state = .disconnected ∨ (tick s tx).1.state = .failed)) ∧
+    -- a Disconnected transport comes back only if something counted as received recently enough
+    (s.state = .disconnected → (tick s tx).1.state = .connected →
+      s.now - s.lastRx ≤ (if tcpSelected s then s.connTimeout - 1000 else s.discThreshold)) := by
+  refine ⟨rfl, rfl, rfl, rfl, rfl, ?_, ?_, ?_⟩
+  · simp only [tick]; split <;> simp
+  · intro hne
+    simp only [tick, tickState, tickNewState] at hne ⊢
+    split at hne
+    · rename_i hc
+      refine ⟨hc.2, hc.1, ?_⟩
+      simp only [hc, and_self, ↓reduceIte]
+      repeat' split
+      all_goals simp
+    · exact absurd rfl hne
+  · intro hd hc
+    simp only [tick, tickState] at hc
+    unfold tickNewState at hc
+    by_cases h1 : (s.state = .connected ∨ s.state = .disconnected) ∧ s.webrtc = true
+    · rw [if_pos h1] at hc
+      by_cases h2 : s.now - s.lastRx > s.connTimeout
+      · rw [if_pos h2] at hc; simp at hc
+      · rw [if_neg h2] at hc
+        by_cases h3 : s.now - s.lastRx > (if tcpSelected s then s.connTimeout - 1000 else s.discThreshold)
+        · rw [if_pos h3] at hc; simp at hc
+        · exact Nat.le_of_not_gt h3
+    · rw [if_neg h1, hd] at hc; simp at hc
+
+/-- out of the property's letter (it speaks of STUN requests and responses), stated for honesty: a *media*
+datagram (first byte ≥ 2) from ANY source refreshes the liveness timestamp, so it can bring a Disconnected
+transport back to Connected at the next tick. The media path is authenticated by DTLS / SRTP above ICE,
+not here. -/
+theorem data_datagram_refreshes_liveness_witness :
+    let s : St := { role := .controlled, state := .disconnected, remotes := [], locals := [], selected := none,
+                    nominated := none, pending := [], latching := false, webrtc := true, now := 100000, lastRx := 0 }
+    (tick s []).1.state = .disconnected ∧
+    (tick (step s (.udp (.v4 [127, 0, 0, 1] 1)) (.v4 [203, 0, 113, 66] 6666) .data).1 []).1.state = .connected := by
+  decide
+
+/-- the credential check is sound: it accepts only datagrams whose FIRST USERNAME is `<ufrag>:…` and whose FIRST
+MESSAGE-INTEGRITY is the HMAC under the local password (`Credentials`; see its comment for the one respect
+in which this is weaker than RFC 8445 §7.3: USERNAME need not precede MESSAGE-INTEGRITY) -/
 theorem accepted_implies_credentials (P : Prims) (ufrag pwd pkt : Bytes) (h : codeAuth P ufrag pwd pkt = true) :
     Credentials P ufrag pwd pkt :=
   codeAuth_sound P ufrag pwd pkt h
@@ -195,7 +320,7 @@ theorem first_message_integrity_decides (P : Prims) (ufrag pwd hdr : Bytes) (pre
 
 /-- non-vacuity of `unauth_request_inert`: e.g. no datagram shorter than 24 bytes carries credentials -/
 example (P : Prims) (ufrag pwd : Bytes) : ¬ Credentials P ufrag pwd [0, 1, 0, 0] := by
-  intro ⟨_, off, mac, ⟨hb, t0, t1, l0, l1, body, hd, _⟩, _⟩
+  intro ⟨_, off, mac, ⟨⟨sk, hb, _⟩, t0, t1, l0, l1, body, hd, _⟩, _⟩
   have h20 : 20 ≤ off := hb.ge20
   have := congrArg List.length hd
   simp only [List.length_drop, List.length_cons, List.length_nil] at this
@@ -235,10 +360,10 @@ theorem request_effects_bounded (s : St) (sock : Sock) (src : Addr) (r : Req) :
     ((step s sock src (.request r)).1.state = s.state ∨ (step s sock src (.request r)).1.state = .connected) ∧
     (s.role = .controlling → s.latching = false →
       (step s sock src (.request r)).1.selected = s.selected ∧ (step s sock src (.request r)).1.nominated = s.nominated ∧
-      (step s sock src (.request r)).1.state = s.state) := by
+      (step s sock src (.request r)).1.state = s.state ∧ (step s sock src (.request r)).1.selSock = s.selSock) := by
   by_cases hg : s.webrtc = true ∧ r.accepted = false
   · rw [unauth_request_inert_step s sock src r hg.1 hg.2]; simp
-  · have hauth : handleRequest s sock src r = handleAuthenticated s sock src r :=
+  · have hauth : handleRequest s sock src r = handleAuthenticated { s with lastRx := s.now } sock src r :=
       handleRequest_auth s sock src r (by
         by_cases hw : s.webrtc = true
         · right; cases hr : r.accepted with
@@ -247,53 +372,18 @@ theorem request_effects_bounded (s : St) (sock : Sock) (src : Addr) (r : Req) :
         · left; simpa using hw)
     refine ⟨by simp [step], by simp [step], by simp [step], ?_, ?_, ?_, ?_⟩
     · simp only [step, hauth, handleAuthenticated_remotes, learn_remotes]; split <;> simp
-    · simp only [step, hauth, handleAuthenticated]
-      have h1 : ∀ (x : St) k a, (tcpNominate x k a).nominated = x.nominated ∨ (tcpNominate x k a).nominated = some true := by
-        intro x k a; unfold tcpNominate; repeat' split
-        all_goals simp
-      have h2 : ∀ (x : St) k a, (useCandidate x k a).nominated = x.nominated ∨ (useCandidate x k a).nominated = some true := by
-        intro x k a; unfold useCandidate; repeat' split
-        all_goals simp
-      have e : (latch (learn s sock src) src).nominated = s.nominated := by simp
-      split
-      · rcases h2 (tcpNominate (latch (learn s sock src) src) sock src) sock src with h | h
-        · rcases h1 (latch (learn s sock src) src) sock src with h' | h'
-          · left; rw [h, h', e]
-          · right; rw [h, h']
-        · right; exact h
-      · rcases h1 (latch (learn s sock src) src) sock src with h' | h'
-        · left; rw [h', e]
-        · right; exact h'
-    · simp only [step, hauth, handleAuthenticated]
-      have h1 : ∀ (x : St) k a, (tcpNominate x k a).state = x.state ∨ (tcpNominate x k a).state = .connected := by
-        intro x k a; unfold tcpNominate withPairConnected; repeat' split
-        all_goals simp
-      have h2 : ∀ (x : St) k a, (useCandidate x k a).state = x.state ∨ (useCandidate x k a).state = .connected := by
-        intro x k a; unfold useCandidate; repeat' split
-        all_goals simp
-      have e : (latch (learn s sock src) src).state = s.state := by simp
-      split
-      · rcases h2 (tcpNominate (latch (learn s sock src) src) sock src) sock src with h | h
-        · rcases h1 (latch (learn s sock src) src) sock src with h' | h'
-          · left; rw [h, h', e]
-          · right; rw [h, h']
-        · right; exact h
-      · rcases h1 (latch (learn s sock src) src) sock src with h' | h'
-        · left; rw [h', e]
-        · right; exact h'
+    · simpa [step, hauth] using handleAuthenticated_nominated_mono { s with lastRx := s.now } sock src r
+    · simpa [step, hauth] using handleAuthenticated_state_mono { s with lastRx := s.now } sock src r
     · intro hr hl
-      simp only [step, hauth, handleAuthenticated]
-      have hl' : (learn s sock src).latching = false := by simp [hl]
-      rw [latch_off _ _ hl']
-      have hr' : (learn s sock src).role = .controlling := by simp [hr]
-      rw [tcpNominate_id _ _ _ (Or.inl hr'), useCandidate_id _ _ _ (Or.inl hr')]
+      simp only [step, hauth]
+      rw [handleAuthenticated_controlling { s with lastRx := s.now } sock src r hr hl]
       simp
 
 /-! ### the behaviour before the repair, still in force outside WebRTC mode (RTP / SRTP modes answer and
 honour unauthenticated probes by design) -/
 
 def loopback (p : Nat) : Addr := .v4 [127, 0, 0, 1] p
-def hostCand (a : Addr) : Cand := ⟨a, a, .host, false, false, priorityFor .host 1⟩
+def hostCand (a : Addr) : Cand := ⟨a, a, .host, false, false, priorityFor .host 1, true⟩
 /-- an agent that has gathered one UDP host candidate and knows no remote candidate yet -/
 def fresh (role : Role) (st : IceState) (webrtc : Bool) : St :=
   { role, state := st, remotes := [], locals := [hostCand (loopback 5000)], selected := none, nominated := none,
@@ -315,9 +405,8 @@ theorem webrtc_stranger_use_candidate_inert :
     (step (fresh .controlled .new true) (.udp (loopback 5000)) stranger (.request (unauth true))).1 =
       fresh .controlled .new true := by decide
 
-/-- datagrams that are not requests or responses never touch anything -/
-theorem other_datagrams_inert (s : St) (sock : Sock) (src : Addr) (i : Inp)
-    (h : i = .empty ∨ i = .data ∨ i = .undecodable ∨ i = .indication) : (step s sock src i).1 = s := by
-  rcases h with rfl | rfl | rfl | rfl <;> rfl
+/-- a media datagram changes nothing but the liveness timestamp -/
+theorem data_datagram_effect (s : St) (sock : Sock) (src : Addr) :
+    (step s sock src .data).1 = { s with lastRx := s.now } := rfl
 
 end RtcModel.Theorems.C06
